@@ -184,6 +184,11 @@ class Expander:
                     ws = [w for w in ast.walk(root_) if isinstance(w, ast.NamedExpr) and isinstance(w.target, ast.Name) and w.target.id == name]
                     if len(ws) == 1 and depth < 40:
                         return self.expr(ws[0].value, func, node, env, depth + 1)
+            if node is not None and node.kind == "case" and isinstance(n.ctx, ast.Load):
+                # a capture of the case pattern read in the guard of the same case
+                same = [d for d in df.node_defs.get(node, []) if d.var == name and d.kind == "match"]
+                if same and node.ast.guard is not None and any(x is n for x in ast.walk(node.ast.guard)):
+                    return self._def_term(func, same[-1], depth)
             if node is None:
                 defs = frozenset(df.defs_of(name))
             else:
